@@ -163,6 +163,8 @@ var implOps = map[string]func(h caseHead, raw []byte) map[string]any{
 	"pipe": implPipe,
 	"fuzz": implFuzz,
 	"hist": implHist,
+	"c03":  implC03,
+	"cli":  implCli,
 }
 
 func runImpl(in io.Reader, out io.Writer) {
@@ -348,5 +350,67 @@ func implHist(h caseHead, raw []byte) map[string]any {
 	res["outcome"] = "ok"
 	res["allSame"] = allSame
 	res["positions"] = positions
+	return res
+}
+
+// c03: report header under a given report configuration and clock
+type c03Head struct {
+	Config struct {
+		IncludeDate   bool   `json:"includeDate"`
+		Time          string `json:"time"`
+		ReportSchema  string `json:"reportSchema"`
+		LexicalSchema string `json:"lexicalSchema"`
+	} `json:"config"`
+}
+
+type clockAt struct{ t time.Time }
+
+func (c clockAt) ReportCreationTime() time.Time { return c.t }
+
+func implC03(h caseHead, raw []byte) map[string]any {
+	var ch c03Head
+	json.Unmarshal(raw, &ch)
+	t, _ := time.Parse(time.RFC3339, ch.Config.Time)
+	rc := config.ReportConfiguration{IncludeReportCreationTime: ch.Config.IncludeDate, ReportSchemaIri: ch.Config.ReportSchema, LexicalSchemaIri: ch.Config.LexicalSchema}
+	res := map[string]any{}
+	var rep string
+	var err error
+	func() {
+		defer func() {
+			if r := recover(); r != nil {
+				err = fmt.Errorf("panic: %v", r)
+			}
+		}()
+		rep, err = pkg.ValidateWithConfiguration(h.Profile, h.Data, false, nil, clockAt{t}, rc)
+	}()
+	if err != nil {
+		res["outcome"] = "error"
+		res["err"] = err.Error()
+		return res
+	}
+	rv, rerr := ReadReport(rep)
+	if rerr != nil {
+		res["outcome"] = "badreport"
+		res["err"] = rerr.Error()
+		return res
+	}
+	res["outcome"] = "ok"
+	res["conforms"] = rv.Conforms
+	res["profileName"] = rv.ProfileName
+	res["hasResult"] = rv.HasResult
+	if rv.DateCreated != nil {
+		res["dateCreated"] = *rv.DateCreated
+	} else {
+		res["dateCreated"] = nil
+	}
+	set := map[string]bool{}
+	for _, r := range rv.Results {
+		set[r.Severity+"|"+r.Shape+"|"+r.Focus] = true
+	}
+	res["results"] = sortedKeys(set)
+	res["nResults"] = len(rv.Results)
+	ctx, _ := rv.Raw["@context"].(map[string]any)
+	res["ctxReportSchema"] = ctx["reportSchema"]
+	res["ctxLexicalSchema"] = ctx["lexicalSchema"]
 	return res
 }
